@@ -331,9 +331,12 @@ func (g *c04Gen) msgpackItem(db, m string, poison, lenMismatch bool) (mpMap, []c
 		seen[name] = true
 		typ := g.colType(name, "type", true)
 		sig = append(sig, name+":"+typ)
+		// an all-null column is written as a string column, so while the '_' type-flip
+		// finding is open a pinned '_' column gets no nulls at all
+		noNulls := len(name) > 0 && name[0] == '_' && verifkit.Excluded(kfC04UnderscoreFlip)
 		vals := make([]any, n)
 		for i := 0; i < n; i++ {
-			if typ == "nil" || rapid.IntRange(0, 7).Draw(t, "null") == 0 {
+			if typ == "nil" || (!noNulls && rapid.IntRange(0, 7).Draw(t, "null") == 0) {
 				vals[i] = nil
 				continue
 			}
@@ -1015,7 +1018,13 @@ func (g *c04Gen) tle() *c04Req {
 	}
 	r.NRows = k
 	if rapid.IntRange(0, 3).Draw(t, "junk") == 0 {
-		junk := rapid.SampledFrom([]string{"1 a", "2 b", "1 25544U", "garbage line", "1 " + strings.Repeat("9", 70), "\xff\xfe name"}).Draw(t, "junkline")
+		junks := []string{"1 a", "2 b", "1 25544U", "garbage line", "1 " + strings.Repeat("9", 70)}
+		if verifkit.Excluded(kfC04InvalidUTF8) {
+			verifkit.CountExcluded(kfC04InvalidUTF8)
+		} else {
+			junks = append(junks, "\xff\xfe name") // becomes an object name when it lands before a 2-line entry
+		}
+		junk := rapid.SampledFrom(junks).Draw(t, "junkline")
 		at := rapid.IntRange(0, len(lines)).Draw(t, "junkat")
 		lines = append(lines[:at], append([]string{junk}, lines[at:]...)...)
 		r.NRows = -1
@@ -1224,29 +1233,41 @@ func c04HasCompressionMagic(b []byte) bool {
 	return (len(b) >= 2 && b[0] == 0x1f && b[1] == 0x8b) || (len(b) >= 4 && b[0] == 0x28 && b[1] == 0xb5 && b[2] == 0x2f && b[3] == 0xfd)
 }
 
-// finish applies body-level exclusions of open findings.
+// finish applies body-level exclusions of open findings. They work on the bytes
+// before any compression wrapper; when those change, a wrapped body is rebuilt as
+// plain gzip of the fixed bytes.
 func (g *c04Gen) finish(r *c04Req) *c04Req {
-	if r.Opaque && r.preWrap != nil && c04TextEndpoint(r.Path) && !c04HasCompressionMagic(r.preWrap) && verifkit.Excluded(kfC04InvalidUTF8) {
-		// keep text payloads valid UTF-8 (the bytes before any compression wrapper)
-		if fixed := bytes.ToValidUTF8(r.preWrap, []byte("?")); !bytes.Equal(fixed, r.preWrap) {
+	plain := r.preWrap
+	if plain == nil {
+		plain = r.Body
+	}
+	if c04HasCompressionMagic(plain) {
+		return r // compressed garbage: rejected (or not) at the decompression stage
+	}
+	fixed := plain
+	if strings.Contains(r.Path, "/tle") && verifkit.Excluded(kfC04TLEShortLine) && c04TLEShortLine1(fixed) {
+		verifkit.CountExcluded(kfC04TLEShortLine)
+		fixed = bytes.ReplaceAll(fixed, []byte("1 "), []byte("1_"))
+		r.Desc += " (short TLE line-1 neutralised)"
+	}
+	if r.Opaque && c04TextEndpoint(r.Path) && verifkit.Excluded(kfC04InvalidUTF8) {
+		// keep text payloads valid UTF-8
+		if v := bytes.ToValidUTF8(fixed, []byte("?")); !bytes.Equal(v, fixed) {
 			verifkit.CountExcluded(kfC04InvalidUTF8)
-			if bytes.Equal(r.Body, r.preWrap) {
-				r.Body = fixed
-			} else {
-				// a wrapper was applied on top: rebuild it as plain gzip
-				r.Body = c04Gzip(fixed)
-				r.Desc += " (re-wrapped as gzip after UTF-8 fix)"
-			}
+			fixed = v
+			r.Desc += " (made valid UTF-8)"
 		}
 	}
-	if strings.Contains(r.Path, "/tle") && verifkit.Excluded(kfC04TLEShortLine) {
-		body := r.Body
-		if c04TLEShortLine1(body) {
-			verifkit.CountExcluded(kfC04TLEShortLine)
-			r.Body = bytes.ReplaceAll(body, []byte("1 "), []byte("1_"))
-			r.Desc += " (short TLE line-1 neutralised)"
-		}
+	if bytes.Equal(fixed, plain) {
+		return r
 	}
+	if bytes.Equal(r.Body, plain) {
+		r.Body = fixed
+	} else {
+		r.Body = c04Gzip(fixed)
+		r.Desc += " (re-wrapped as gzip)"
+	}
+	r.preWrap = fixed
 	return r
 }
 
